@@ -138,18 +138,22 @@ PROPS["C04"] = dict(
     quick=dict(checks=30000, shards=3), thorough=dict(checks=3200000, shards=16),
     nt_floor=dict(quick=8000, thorough=400000),
     must_classes=["channel=literal", "channel=var", "channel=default", "channel=nested", "verdict=good", "verdict=bad", "verdict=either",
-                  "resolver-invoked", "representable-but-rejected", "list-type", "base=In0", "base=E0", "base=Time", "strategy=R", "strategy=A"],
+                  "resolver-invoked", "representable-but-rejected", "list-type", "base=In0", "base=In2", "base=E0", "base=Time", "strategy=R", "strategy=A",
+                  "strategy=X", "go-inputs=true", "go-inputs=false"],
     level="exploration",
     technique="property-based testing of input coercion: generated (type expression, written value, channel) triples; two-directional oracle = validity predicate on the received argument + denotation of the written value + must-reject for unrepresentable values",
     rule="Type expressions over {Int, Float, String, Boolean, ID, Int64, Float64, Time, enum, two input objects with defaults/required/nested"
          " fields} with 0-2 list wrappers and non-null marks; written values built representable (incl. boundaries +-2^31, 2^53+1, MaxFloat32,"
          " 16777217) and then optionally corrupted at one position (null in non-null, wrong kind, overflow, NaN/Inf, unknown enum, unknown or"
          " missing input field, list/object where a scalar is expected); delivered as literal, as variable (every Go numeric kind), as variable"
-         " default (with and without an overriding supplied value) or as a literal with variables nested inside. Oracle: unrepresentable =>"
+         " default (with and without an overriding supplied value) or as a literal with variables nested inside; resolver = Resolver object,"
+         " root resolver or a Go method found by reflection (interface{} parameters, so whatever ggql hands over is recorded); in a third of"
+         " the cases the input object types are bound to Go structs with RegisterType (one with int8/uint16/int16 fields: a value that does"
+         " not fit must be refused, never wrapped). Oracle: unrepresentable =>"
          " error and the field's resolver not invoked; invoked => received value conforms to the type and equals the written value."
          " Non-trivial = wrapped or input-object type, or an unrepresentable value.",
     level_text="Generated-input search over types x values x channels with an independent coercion model.",
-    level_note="Trusted: denote()/conforms() in harness/exec/c04_test.go. Silent in the statement and only conformance-checked: Time from numbers,"
+    level_note="Trusted: denote()/conforms() in harness/exec/c04_test.go; a Go struct can not tell an absent field from a zero one, the comparison is tolerant there. Silent in the statement and only conformance-checked: Time from numbers,"
                " Int from an integral float, Int64 from a numeric string, enum from a JSON string, explicit null for a defaulted input field, single value for a list.",
     assumptions=EXEC_ASSUME,
     design_ref="DESIGN.md section 5 C04",
